@@ -611,8 +611,8 @@ end
 
 /-! ## JSON (MarshalJSON / unmarshal): what survives a round trip -/
 
-/-- float64(v) then int64(...) as `JSONNode.Int64` does after encoding/json decoded the number into an
-`interface{}`: round to 53 significant bits, ties to even. -/
+/-- float64(v) then int64(...) as `JSONNode.Int64` did before 1dcce27 after encoding/json decoded the number
+into an `interface{}`: round to 53 significant bits, ties to even. -/
 def roundF64 (v : Int) : Int :=
   let a := v.natAbs
   if a < 9007199254740992 then v else
@@ -628,8 +628,7 @@ def roundF64 (v : Int) : Int :=
 def jsonAtom : Atom → Res Atom
   | .num (.int b v) =>
     if b = 0 then .err  -- "integer base cannot be zero"
-    else if roundF64 v ≥ 9223372036854775808 then .ok (.num (.int b (-9223372036854775808)))  -- int64(2^63) on amd64
-    else .ok (.num (.int b (roundF64 v)))
+    else .ok (.num (.int b v))      -- numbers are decoded as json.Number (repair 1dcce27): exact
   | .num (.flt c) => .ok (.num (.flt c))
   | .dur ns _ => .ok (.dur ns "")
   | .bool b => .ok (.bool b)
@@ -637,6 +636,10 @@ def jsonAtom : Atom → Res Atom
   | .rx re _ => .ok (.rx re "")
   | .ref s => .ok (.ref s)
   | .star => .ok .star
+
+/-- what JSONNode.Int64 did to an integer before 1dcce27 (encoding/json decoded numbers into float64) -/
+def jsonIntOld (v : Int) : Int :=
+  if roundF64 v ≥ 9223372036854775808 then -9223372036854775808 else roundF64 v
 
 mutual
 /-- json.Unmarshal(json.Marshal(node)) -/
